@@ -120,3 +120,19 @@ CHECKS["C11"] = {
     "outside": "longer histories; more than 2 URRs per session; remove failures",
     "assumptions": PFCP_ASSUME + ["relaxed model data plane (several reports for one URR in one response)"],
 }
+
+CHECKS["C08"] = {
+    "jobs": {
+        "quick": [{"pkg": "internal/pfcp", "entries": ["ZZ_C08_*"], "witnesses": 4, "max_paths": 200000}],
+        "thorough": [{"pkg": "internal/pfcp", "entries": ["ZZ_C08_*"], "witnesses": 8, "max_paths": 2000000}],
+    },
+    "covers": {"all": ["ZZ_C08_Heartbeat:C08.hb.done", "ZZ_C08_AssocNoNodeID:C08.assoc-nonode.done", "ZZ_C08_Establish:C08.est.done",
+                       "ZZ_C08_Establish:C08.est.early-return", "ZZ_C08_SessionLevel:C08.sess.live", "ZZ_C08_SessionLevel:C08.sess.notfound",
+                       "ZZ_C08_SessionLevel:C08.sess.bad-nodeid"]},
+    "bounds": {
+        "quick": "one or two requests per run: Heartbeat + Association Setup (either peer), Association Setup without Node ID, Establishment (known/unknown node, with/without Node ID and CP F-SEID, 0..2 Create PDRs each with/without a UE IPv4 address, symbolic PDR ids and CP SEID) followed by a Modification to the returned UP SEID, Modification/Deletion/Modification-with-undecodable-Node-ID addressed by an unconstrained 64-bit header SEID from either peer; sequence numbers symbolic 24 bit; start instant 2026-10-01",
+        "thorough": "same with three start instants (NTP second 1, 2026-10-01, last second of NTP era 0)",
+    },
+    "outside": "FQDN / IPv6 node ids, UE IPv6 addresses, symbolic UE addresses (they pass through text formatting), more than two requests per run",
+    "assumptions": PFCP_ASSUME + ["the server's start instant is set by the harness (recoveryTime field) so that engine and native replay agree; time.Now() in the engine is a different instant, so a per-response time.Now() is detected"],
+}
